@@ -379,7 +379,10 @@ func c12Run[T any](seed uint64, tier string, gen func(r *simrt.Rand) T) (*Episod
 						v := gen(r)
 						id := fmt.Sprintf("ws%d", i)
 						if exp, enc := expectedOf(v); enc {
-							raw, _ := json.Marshal(c12Wire[T]{ID: id, Status: "Queued", Data: v})
+							// (and whichever of the states of a stored, not yet completed job the other
+							// side recorded: a backend that tracks delivery state rewrites it)
+							st := []string{"Queued", "Queued", "Created", "Processing", "Finished"}[r.Intn(5)]
+							raw, _ := json.Marshal(c12Wire[T]{ID: id, Status: st, Data: v})
 							var framed []byte
 							switch r.Intn(4) {
 							case 0:
@@ -389,7 +392,7 @@ func c12Run[T any](seed uint64, tier string, gen func(r *simrt.Rand) T) (*Episod
 							case 2:
 								framed = append(append([]byte("\r\n"), raw...), '\r', '\n')
 							default:
-								framed, _ = json.MarshalIndent(c12Wire[T]{ID: id, Status: "Queued", Data: v}, "", "\t")
+								framed, _ = json.MarshalIndent(c12Wire[T]{ID: id, Status: st, Data: v}, "", "\t")
 							}
 							e := adEntry{Bytes: framed, Sub: -1, Prio: pick(r, prioVals)}
 							at := wd.rec.stamp()
@@ -576,7 +579,25 @@ func c12Judge[T any](ep *Episode, cw *c12World) {
 	if undec > 0 && len(cw.errs) == 0 {
 		cw.add("C12.c", ep.FinalSeq, "%d undecodable entries were delivered but no error was ever offered on Errs()", undec)
 	}
-	_ = wd
+	// every report that certainly found the one-slot error channel empty must arrive: with
+	// all n reports that may have been sent before an undecodable entry was dequeued already
+	// taken off Errs() at that moment, nothing can be in the channel, the dispatcher's
+	// non-blocking send succeeds, and the reader ends up with at least n+1 reports
+	for i, ev := range ad.errEvents {
+		if !ev.Sure {
+			continue
+		}
+		got := 0
+		for _, s := range wd.errsSeenSeq {
+			if s < ev.Seq {
+				got++
+			}
+		}
+		if got == i && len(cw.errs) < i+1 {
+			cw.add("C12.c", ep.FinalSeq, "an undecodable entry was dequeued at %d, when all %d earlier reports had been read from Errs() and the channel was empty, yet only %d reports ever arrived: this entry was skipped without being reported", ev.Seq, i, len(cw.errs))
+			break
+		}
+	}
 }
 
 // payload type table
